@@ -19,7 +19,7 @@ META = {
         "level_note": "Trusts: the harness's 60-line replica specification (self-checked sequential == closed form on every case), determinism of ed25519, the full-scan query used for dumps.",
     },
     "C03": {
-        "technique": "runtime monitoring: byte-level tampering of validly signed entries presented on both ingress paths of a real store actor; state, subscriber channel, acceptance counter and indexes compared with the oracle's verdict",
+        "technique": "runtime monitoring: byte-level tampering of validly signed entries presented on both ingress paths of a real store actor; state, subscriber channel, acceptance counter and indexes compared with the oracle's verdict; cases in which the node's clock steps back",
         "design_ref": "DESIGN.md §5 C03",
         "level_text": "22 kinds of forged / foreign / future / malformed entries (the harness knows the verdict because it built them) are mixed with valid entries at every position of crafted reconciliation messages and presented as single remote inserts, under a fixed clock (hook H1). Nothing unacceptable may be stored, counted or announced; valid entries of the same message must still be applied; the actor must survive. " + _EXPL,
         "level_note": "Trusts the hand-written postcard mirror encoder (self-checked against the crate on real entries). Acceptability by supersession is judged with the replica specification over the dump actually held.",
@@ -73,7 +73,7 @@ META = {
         "level_note": "Progress ('never permanently busy') is decided at quiescent points of bounded histories (<=6 dials, <=14/24 events). The network model imposes only causality; handlers are invoked directly, not through the actor's select loop.",
     },
     "C12": {
-        "technique": "runtime monitoring: subscriber channels drained after every acknowledged request of a real store actor; observational oracle (before/after lookups) for single entries, specification prediction for multi-entry messages; event streams of complete docs nodes in a swarm, missing events judged behind a fence write",
+        "technique": "runtime monitoring: subscriber channels drained after every acknowledged request of a real store actor; observational oracle (before/after lookups) for single entries, specification prediction for multi-entry messages; event streams of complete docs nodes in a swarm, missing events judged behind a fence write; the client's event subscriptions on a complete node driven through its client layer (api mode); a subscriber that takes nothing out for seconds",
         "design_ref": "DESIGN.md §5 C12",
         "level_text": "Histories of local inserts, deletions, remote inserts, single- and multi-entry reconciliation messages (with invalid entries) and sessions in which a local write lands between two messages, with up to four subscribers joining, unsubscribing and dropping receivers and changing download policies; one case in eight has a slow subscriber (bounded channel drained with a delay) and callers that give up on requests while the actor waits in event delivery, judged against the final replica content. Exactly the applied entries produce exactly one event per current subscriber, with the right kind, peer, status, flag and order. " + _EXPL,
         "level_note": "'Applied' is read off the call result and lookups, so a defect of the merge rules does not masquerade as an event defect; the download flag oracle is C15's matcher.",
@@ -91,7 +91,7 @@ META = {
         "level_note": "Histories are short (<=20 operations, <=4 clients) so the linearizability search is tiny; a checker time-out is reported as inconclusive. The handle count after a refused removal is adopted from the actor (not part of the statement).",
     },
     "C15": {
-        "technique": "runtime monitoring: one-line matcher specification compared with DownloadPolicy::matches over all keys; persistence model; textual round-trips; event flags from a real actor; download decisions of a real live actor observed through hook H7; blob stores of complete nodes in a swarm inspected for content the policy excludes",
+        "technique": "runtime monitoring: one-line matcher specification compared with DownloadPolicy::matches over all keys; persistence model; textual round-trips; event flags from a real actor; download decisions of a real live actor observed through hook H7; blob stores of complete nodes in a swarm inspected for content the policy excludes; policies set and read back through client handles of a complete node (api mode); flags of all events of one reconciliation message",
         "design_ref": "DESIGN.md §5 C15",
         "level_text": "Policies of both kinds with 0-5 exact/prefix filters (empty, non-UTF-8, colon-containing) against every key up to length 3 over the alphabet; set/get persistence across reopen and documents; parse(display(f)) == f; should_download of real events equals the matcher. Live mode: entries under random policies through the real store actor, their events handed to the live actor's own handler, neighbours announcing content; content is queued for download or remembered as missing exactly when the policy selects the entry's key. " + _EXPL,
         "level_note": "Trusts the matcher specification in the harness (four lines).",
@@ -109,7 +109,7 @@ META = {
         "level_note": "Registration order is by wall-clock nanoseconds in the store; two registrations are assumed to get distinct clock readings.",
     },
     "C18": {
-        "technique": "runtime monitoring: derived tables deleted with plain redb, store reopened, heads and key-ordered queries compared with the reference evaluator over the records; observables compared across reopen cycles; files also in the redb-2.x on-disk format",
+        "technique": "runtime monitoring: derived tables deleted with plain redb, store reopened, heads and key-ordered queries compared with the reference evaluator over the records; observables compared across reopen cycles; files also in the redb-2.x on-disk format; files with a document of more than 1024 records, files with keys of 100-200 KiB",
         "design_ref": "DESIGN.md §5 C18",
         "level_text": "Multi-document, multi-author stores with markers and equal timestamps are flushed; the head table, the by-key index, both or none are deleted with plain redb; after reopening, heads must equal the per-author maxima, key-ordered and latest-per-key queries must match C05's evaluator, and 1-3 further reopen cycles must change nothing. " + _EXPL,
         "level_note": "Only the two derived tables named in the statement are deleted; the namespaces-v1 table shape and the redb-2.x on-disk format are produced by the harness (plain redb, redb 3 Legacy types); older redb versions cannot be written here.",
